@@ -8,6 +8,7 @@ from __future__ import annotations
 
 import numpy as np
 
+from vmon import gen
 from vmon.core import case_hash
 
 RULE = (
@@ -123,6 +124,9 @@ def check_lookup(mon, rng, ds, prob, dec):
         x2 = np.atleast_2d(x0)
         # exact-ish squared distances in float64 via direct differences (no dot-product trick)
         D2 = ((x2[:, None, :] - ds.in_data[None, :, :]) ** 2).sum(-1)
+        if rng.random() < 0.25:
+            x = gen.exotic(x, rng)  # Fortran-ordered / non-contiguous / read-only query arrays
+            mon.count("exotic_layout_queries")
         try:
             f = prob.evaluate(x, noisy=False)
         except Exception as e:
